@@ -6,6 +6,7 @@ demand of node `j ≥ 1` (the code's `td["demand"][j-1]`).  No Mathlib.
 -/
 import Rl4co.Core.Basic
 import Rl4co.Core.Tour
+import Rl4co.Core.Sort
 import Rl4co.Generated.Params
 
 namespace Rl4co.Cvrp
@@ -56,14 +57,6 @@ def env : Env Inst State where
 /-- `_get_reward`: `-get_tour_length([depot] ++ locs[actions])`. -/
 def reward (i : Inst) (as : List Nat) : Int := - rollLen i.D (0 :: as)
 
-/-- insertion sort, the model of `actions.sort(1)[0]` (values only, so stability is irrelevant) -/
-def insertSorted (x : Nat) : List Nat → List Nat
-  | [] => [x]
-  | y :: ys => if x ≤ y then x :: y :: ys else y :: insertSorted x ys
-def sortNat : List Nat → List Nat
-  | [] => []
-  | x :: xs => insertSorted x (sortNat xs)
-
 /-- running load of the checker: depot carries `-cap`, clamp at 0, compare with `cap + tol`. -/
 def checkLoads (i : Inst) (tol : Int) : Int → List Nat → Bool
   | _, [] => true
@@ -75,11 +68,6 @@ def checkLoads (i : Inst) (tol : Int) : Int → List Nat → Bool
 
 /-- `check_solution_validity` (True = no assertion raised). `tol` is the tick value of `1e-5`. -/
 def check (i : Inst) (tol : Int) (as : List Nat) : Bool :=
-  let sorted := sortNat as
-  let k := as.length - i.n
-  decide (i.n ≤ as.length) &&
-  (sorted.drop k == (List.range i.n).map (· + 1)) &&
-  (sorted.take k).all (· == 0) &&
-  checkLoads i tol 0 as
+  sortedTest i.n as && checkLoads i tol 0 as
 
 end Rl4co.Cvrp
